@@ -190,7 +190,10 @@ def shard(idx, seed, n, cli_n, all_steps):
 
     def body(case_seed):
         rnd = random.Random(case_seed)
-        if semgen is not None and rnd.random() < 0.7:
+        if rnd.random() < 0.25:
+            files, main = {"m.emb": rnd.choice(emb.test_snippets())}, "m.emb"
+            label = "test-snippet"
+        elif semgen is not None and rnd.random() < 0.7:
             files, main = semgen.valid_source_set(rnd)
             label = "model"
         else:
